@@ -224,9 +224,11 @@ class Ctx:
         """signature identifies the specific failing input/call site/history; matched against known_findings.json"""
         for k in self.known:
             if k.get("status", "open") == "open" and re.fullmatch(k["signature"], signature):
-                msg = f"KNOWN-FINDING: property={self.id} {k['what']} [{signature}]"
+                # one line per LISTED finding (not per matching case)
+                msg = f"KNOWN-FINDING: property={self.id} {k['what']} [signature: {k['signature']}]"
                 if msg not in self.known_hits:
                     self.known_hits.append(msg)
+                self.known_cases = getattr(self, "known_cases", 0) + 1
                 return False
         path = os.path.join(self.replay_dir(), replay_name)
         with open(path, "w") as f:
